@@ -187,8 +187,8 @@ theorem fsum_cond_eq_bucket (A : AggType) (q : Query) (fam tLo tHi lo hi t : Nat
 
 /-! ### well-formedness of all calls -/
 
-theorem memCallsR_wf (q : Query) (A : AggType) (pages : List (PageKey × Buf)) (rng : Option (Nat × Nat))
-    (fam : Nat) (group : List Nat) : ∀ c ∈ memCallsR q [A] pages rng fam group, WF1 A c := by
+theorem memCallsR_wf (q : Query) (L : List AggType) (hL : L.Nodup) (pages : List (PageKey × Buf)) (rng : Option (Nat × Nat))
+    (fam : Nat) (group : List Nat) : ∀ c ∈ memCallsR q L pages rng fam group, WFL L c := by
   intro c hc
   unfold memCallsR at hc
   split at hc
@@ -197,16 +197,16 @@ theorem memCallsR_wf (q : Query) (A : AggType) (pages : List (PageKey × Buf)) (
       obtain ⟨ser, _, hser⟩ := hc
       split at hser
       · simp at hser
-      · exact pageCalls_wf A _ _ _ _ _ _ _ _ c hser
+      · exact pageCalls_wf L hL _ _ _ _ _ _ _ _ c hser
     · simp at hc
   · simp at hc
 
-theorem memCalls_wf (s : Shard) (q : Query) (A : AggType) (md : MemDB) (fam : Nat) (group : List Nat) :
-    ∀ c ∈ memCalls s q [A] md fam group, WF1 A c :=
-  memCallsR_wf q A md.pages _ fam group
+theorem memCalls_wf (s : Shard) (q : Query) (L : List AggType) (hL : L.Nodup) (md : MemDB) (fam : Nat) (group : List Nat) :
+    ∀ c ∈ memCalls s q L md fam group, WFL L c :=
+  memCallsR_wf q L hL md.pages _ fam group
 
-theorem fileCalls_wf (s : Shard) (q : Query) (sc : Scope) (A : AggType) (blk : Block) (fam : Nat) (group : List Nat) :
-    ∀ c ∈ fileCalls s q sc [A] blk fam group, WF1 A c := by
+theorem fileCalls_wf (s : Shard) (q : Query) (sc : Scope) (L : List AggType) (hL : L.Nodup) (blk : Block) (fam : Nat) (group : List Nat) :
+    ∀ c ∈ fileCalls s q sc L blk fam group, WFL L c := by
   intro c hc
   unfold fileCalls at hc
   split at hc
@@ -215,12 +215,12 @@ theorem fileCalls_wf (s : Shard) (q : Query) (sc : Scope) (A : AggType) (blk : B
       obtain ⟨ser, _, hser⟩ := hc
       split at hser
       · simp at hser
-      · simp at hser; subst hser; exact dsCall_wf A _ _ _ _ _ _ _ _
+      · simp at hser; subst hser; exact dsCall_wf L hL _ _ _ _ _ _ _ _
     · simp at hc
   · simp at hc
 
-theorem memResult_wf (s : Shard) (q : Query) (sc : Scope) (A : AggType) (fam : Nat) (group : List Nat)
-    (mem : List Arrays) (hmr : memResult s q sc [A] fam group = some mem) : ∀ c ∈ mem, WF1 A c := by
+theorem memResult_wf (s : Shard) (q : Query) (sc : Scope) (L : List AggType) (hL : L.Nodup) (fam : Nat) (group : List Nat)
+    (mem : List Arrays) (hmr : memResult s q sc L fam group = some mem) : ∀ c ∈ mem, WFL L c := by
   intro c' hc'
   unfold memResult at hmr
   cases hmu : (s.family fam).mutable_ with
@@ -238,19 +238,19 @@ theorem memResult_wf (s : Shard) (q : Query) (sc : Scope) (A : AggType) (fam : N
     | some bb =>
       rw [hf] at hmr
       cases bb with
-      | true => simp at hmr; subst hmr; exact memCalls_wf s q A md fam group c' hc'
+      | true => simp at hmr; subst hmr; exact memCalls_wf s q L hL md fam group c' hc'
       | false => simp at hmr; subst hmr; simp at hc'
 
-theorem familyCalls_wf (s : Shard) (q : Query) (sc : Scope) (A : AggType) (fam : Nat) (group : List Nat) :
-    ∀ c ∈ familyCalls s q sc [A] fam group, WF1 A c := by
+theorem familyCalls_wf (s : Shard) (q : Query) (sc : Scope) (L : List AggType) (hL : L.Nodup) (fam : Nat) (group : List Nat) :
+    ∀ c ∈ familyCalls s q sc L fam group, WFL L c := by
   intro c hc
   unfold familyCalls at hc
-  cases hmr : memResult s q sc [A] fam group with
+  cases hmr : memResult s q sc L fam group with
   | none => simp [hmr] at hc
   | some mem =>
     rw [hmr] at hc
     simp only at hc
-    have hm := memResult_wf s q sc A fam group mem hmr
+    have hm := memResult_wf s q sc L hL fam group mem hmr
     unfold combineCalls at hc
     split at hc
     · exact hm c hc
@@ -263,7 +263,7 @@ theorem familyCalls_wf (s : Shard) (q : Query) (sc : Scope) (A : AggType) (fam :
         · exact hm c h
         · rw [List.mem_flatMap] at h
           obtain ⟨blk, _, hb⟩ := h
-          exact fileCalls_wf s q sc A blk fam group c hb
+          exact fileCalls_wf s q sc L hL blk fam group c hb
 
 /-! ### the calls of one source as a bucket fold -/
 
@@ -274,13 +274,13 @@ theorem overlap_of_common (a b c d s : Nat) (h1 : a ≤ s) (h2 : s ≤ b) (h3 : 
   · simp [h]; omega
   · simp; right; omega
 
-theorem pageCalls_fsum {w : Nat} {A : AggType} (hc : AggComm A) (b : Buf) (hi' : BufInv w b)
+theorem pageCalls_fsum {w : Nat} {A : AggType} {L : List AggType} (hL : L.Nodup) (hAL : A ∈ L) (hc : AggComm A) (b : Buf) (hi' : BufInv w b)
     (lo hi tLo tHi g0 qs ratio t : Nat) :
-    fsum A (pageCalls [A] b lo hi tLo tHi g0 qs ratio) (fun c => arrGet c A t) =
+    fsum A (pageCalls L b lo hi tLo tHi g0 qs ratio) (fun c => arrGet c A t) =
       fsum A (slotsOf lo hi)
         (fun s => if tLo ≤ s ∧ s ≤ tHi ∧ (g0 + s - qs) / ratio = t then memView A b s else none) := by
-  rw [← reduce_spec A _ (pageCalls_wf A b lo hi tLo tHi g0 qs ratio) t]
-  exact pageCalls_spec hc b hi' lo hi tLo tHi g0 qs ratio t
+  rw [← reduce_spec L hL A hAL _ (pageCalls_wf L hL b lo hi tLo tHi g0 qs ratio) t]
+  exact pageCalls_spec hc L hL hAL b hi' lo hi tLo tHi g0 qs ratio t
 
 /-- the bucket fold of a family-local view over a group. -/
 def famBucket (A : AggType) (q : Query) (fam t : Nat) (group : List Nat) (V : Nat → Nat → Option Int) : Option Int :=
@@ -305,13 +305,21 @@ def pagesView (A : AggType) (pages : List (PageKey × Buf)) (fld ser slot : Nat)
   | none => none
   | some b => memView A b slot
 
+/-- the calls of one page fold to the page's view (proved for a commutative aggregate —
+`pageCalls_fsum` — and, for any aggregate, for a page written in time order — `C11Sorted`). -/
+def PageFold (A : AggType) (L : List AggType) (b : Buf) : Prop :=
+  ∀ lo hi tLo tHi g0 qs ratio t,
+    fsum A (pageCalls L b lo hi tLo tHi g0 qs ratio) (fun c => arrGet c A t) =
+      fsum A (slotsOf lo hi)
+        (fun s => if tLo ≤ s ∧ s ≤ tHi ∧ (g0 + s - qs) / ratio = t then memView A b s else none)
+
 /-- a memory database's calls = bucket fold of its pages' views (`[lo, hi]` covers the pages). -/
-theorem memCallsR_fsum {w : Nat} (A : AggType) (hc : AggComm A) (q : Query) (hspf : 0 < q.spf)
+theorem memCallsR_fsum_gen (A : AggType) {L : List AggType} (q : Query) (hspf : 0 < q.spf)
     (pages : List (PageKey × Buf)) (lo hi : Nat)
     (hb : ∀ ser b, Map.lookup pages (ser, q.field) = some b →
-      BufInv w b ∧ ∀ t, memView A b t ≠ none → lo ≤ t ∧ t ≤ hi)
+      PageFold A L b ∧ ∀ t, memView A b t ≠ none → lo ≤ t ∧ t ≤ hi)
     (fam : Nat) (group : List Nat) (t : Nat) :
-    fsum A (memCallsR q [A] pages (some (lo, hi)) fam group) (fun c => arrGet c A t) =
+    fsum A (memCallsR q L pages (some (lo, hi)) fam group) (fun c => arrGet c A t) =
       famBucket A q fam t group (fun ser slot => pagesView A pages q.field ser slot) := by
   unfold memCallsR
   cases ht : familyTarget q fam with
@@ -341,7 +349,7 @@ theorem memCallsR_fsum {w : Nat} (A : AggType) (hc : AggComm A) (q : Query) (hsp
       | some b =>
         simp only
         obtain ⟨hbi, hbc⟩ := hb ser b hp
-        rw [pageCalls_fsum hc b hbi]
+        rw [hbi]
         rw [fsum_cond_eq_bucket _ q fam tLo tHi lo hi t (memView A b) ht hspf
           (fun s' _ _ hne => hbc s' hne)]
         apply fsum_congr
@@ -364,27 +372,47 @@ theorem memCallsR_fsum {w : Nat} (A : AggType) (hc : AggComm A) (q : Query) (hsp
           have := (cond_iff_bucketOf q fam tLo tHi slot t ht hs).mpr hbk
           exact hov (overlap_of_common lo hi tLo tHi slot h1 h2 this.1 this.2.1)
 
+theorem memCallsR_fsum {w : Nat} (A : AggType) {L : List AggType} (hL : L.Nodup) (hAL : A ∈ L) (hc : AggComm A) (q : Query) (hspf : 0 < q.spf)
+    (pages : List (PageKey × Buf)) (lo hi : Nat)
+    (hb : ∀ ser b, Map.lookup pages (ser, q.field) = some b →
+      BufInv w b ∧ ∀ t, memView A b t ≠ none → lo ≤ t ∧ t ≤ hi)
+    (fam : Nat) (group : List Nat) (t : Nat) :
+    fsum A (memCallsR q L pages (some (lo, hi)) fam group) (fun c => arrGet c A t) =
+      famBucket A q fam t group (fun ser slot => pagesView A pages q.field ser slot) :=
+  memCallsR_fsum_gen A q hspf pages lo hi
+    (fun ser b hp => ⟨fun lo hi tLo tHi g0 qs ratio t => pageCalls_fsum hL hAL hc b (hb ser b hp).1 lo hi tLo tHi g0 qs ratio t,
+      (hb ser b hp).2⟩) fam group t
+
 theorem pageView_eq_pagesView (s : Shard) (fam : Nat) (md : MemDB) (hm : (s.family fam).mutable_ = some md)
     (ser fld slot : Nat) : pageView s fam ser fld slot = pagesView (s.fieldAgg fld) md.pages fld ser slot := by
   simp only [pageView, hm, pagesView]
   rfl
 
 /-- the memory database's calls = bucket fold of `pageView`. -/
-theorem memCalls_fsum (s : Shard) (pts : List Point) (hinv : Inv s pts) (q : Query) (hspf : 0 < q.spf)
-    (hc : AggComm (s.fieldAgg q.field)) (fam : Nat) (md : MemDB) (hm : (s.family fam).mutable_ = some md)
+theorem memCalls_fsum_gen (s : Shard) (pts : List Point) (hinv : Inv s pts) (q : Query) {L : List AggType} (hspf : 0 < q.spf)
+    (fam : Nat) (md : MemDB) (hm : (s.family fam).mutable_ = some md)
+    (hP : ∀ ser b, Map.lookup md.pages (ser, q.field) = some b → BufInv s.window b → PageFold (s.fieldAgg q.field) L b)
     (group : List Nat) (t : Nat) :
-    fsum (s.fieldAgg q.field) (memCalls s q [s.fieldAgg q.field] md fam group) (fun c => arrGet c (s.fieldAgg q.field) t) =
+    fsum (s.fieldAgg q.field) (memCalls s q L md fam group) (fun c => arrGet c (s.fieldAgg q.field) t) =
       famBucket (s.fieldAgg q.field) q fam t group (fun ser slot => pageView s fam ser q.field slot) := by
   obtain ⟨lo, hi, hr, hb⟩ := hinv.pages fam md hm
   unfold memCalls
-  rw [hr, memCallsR_fsum (w := s.window) _ hc q hspf md.pages lo hi
-    (fun ser b hp => hb (ser, q.field) b hp) fam group t]
+  rw [hr, memCallsR_fsum_gen _ q hspf md.pages lo hi
+    (fun ser b hp => ⟨hP ser b hp (hb (ser, q.field) b hp).1, (hb (ser, q.field) b hp).2⟩) fam group t]
   unfold famBucket
   apply fsum_congr
   intro ser _
   apply fsum_congr
   intro slot _
   simp only [pageView_eq_pagesView s fam md hm]
+
+theorem memCalls_fsum (s : Shard) (pts : List Point) (hinv : Inv s pts) (q : Query) {L : List AggType} (hL : L.Nodup) (hAL : s.fieldAgg q.field ∈ L) (hspf : 0 < q.spf)
+    (hc : AggComm (s.fieldAgg q.field)) (fam : Nat) (md : MemDB) (hm : (s.family fam).mutable_ = some md)
+    (group : List Nat) (t : Nat) :
+    fsum (s.fieldAgg q.field) (memCalls s q L md fam group) (fun c => arrGet c (s.fieldAgg q.field) t) =
+      famBucket (s.fieldAgg q.field) q fam t group (fun ser slot => pageView s fam ser q.field slot) :=
+  memCalls_fsum_gen s pts hinv q hspf fam md hm
+    (fun ser b _ hbi lo hi tLo tHi g0 qs ratio t => pageCalls_fsum hL hAL hc b hbi lo hi tLo tHi g0 qs ratio t) group t
 
 theorem cell_range (blk : Block) (k : PageKey) (slot : Nat) (h : blk.cell k slot ≠ none) :
     blk.lo ≤ slot ∧ slot ≤ blk.hi := by
@@ -408,9 +436,9 @@ theorem block_nonoverlap_none (A : AggType) (q : Query) (fam tLo tHi t : Nat) (b
     cases hov
 
 /-- a file's calls = bucket fold of its cells (when the block feeds the queried field). -/
-theorem fileCalls_fsum (s : Shard) (q : Query) (sc : Scope) (A : AggType) (hspf : 0 < q.spf) (blk : Block) (fam : Nat)
+theorem fileCalls_fsum (s : Shard) (q : Query) (sc : Scope) (A : AggType) {L : List AggType} (hL : L.Nodup) (hAL : A ∈ L) (hspf : 0 < q.spf) (blk : Block) (fam : Nat)
     (hsrc : blockSourceField s q sc blk = some q.field) (group : List Nat) (t : Nat) :
-    fsum A (fileCalls s q sc [A] blk fam group) (fun c => arrGet c A t) =
+    fsum A (fileCalls s q sc L blk fam group) (fun c => arrGet c A t) =
       famBucket A q fam t group (fun ser slot => blk.cell (ser, q.field) slot) := by
   unfold fileCalls
   rw [hsrc]
@@ -440,7 +468,7 @@ theorem fileCalls_fsum (s : Shard) (q : Query) (sc : Scope) (A : AggType) (hspf 
         simp [Block.cell, hp]
       | some cells =>
         simp only
-        rw [fsum_cons, fsum_nil, ocomb_none_right, dsCall_spec]
+        rw [fsum_cons, fsum_nil, ocomb_none_right, dsCall_spec L hL A hAL]
         have hcell : ∀ slot, blk.cell (ser, q.field) slot =
             (if slot < blk.lo ∨ slot > blk.hi then none else cellAt cells (slot - blk.lo)) := by
           intro slot; simp [Block.cell, hp]
@@ -841,10 +869,13 @@ theorem pageView_none_of_filter_none (s : Shard) (h2 : Inv2 s) (q : Query) (sc :
   exact pagesView_none_of_filter_none _ s.known q sc group hsc md.pages
     (fun k b hk => h2.known fam md k b hm hk) _ fam hf ser hser slot
 
-theorem memResult_fsum (s : Shard) (pts : List Point) (hinv : Inv s pts) (h2 : Inv2 s) (q : Query) (sc : Scope)
-    (hspf : 0 < q.spf) (hc : AggComm (s.fieldAgg q.field)) (fam : Nat) (group : List Nat)
-    (hsc : ScopeOK q sc group) (t : Nat) :
-    ∃ mem, memResult s q sc [s.fieldAgg q.field] fam group = some mem ∧
+theorem memResult_fsum_gen (s : Shard) (pts : List Point) (hinv : Inv s pts) (h2 : Inv2 s) (q : Query) {L : List AggType} (sc : Scope)
+    (fam : Nat) (group : List Nat)
+    (hsc : ScopeOK q sc group) (t : Nat)
+    (hM : ∀ md, (s.family fam).mutable_ = some md →
+      fsum (s.fieldAgg q.field) (memCalls s q L md fam group) (fun c => arrGet c (s.fieldAgg q.field) t) =
+        famBucket (s.fieldAgg q.field) q fam t group (fun ser slot => pageView s fam ser q.field slot)) :
+    ∃ mem, memResult s q sc L fam group = some mem ∧
       fsum (s.fieldAgg q.field) mem (fun c => arrGet c (s.fieldAgg q.field) t) =
         famBucket (s.fieldAgg q.field) q fam t group (fun ser slot => pageView s fam ser q.field slot) := by
   unfold memResult
@@ -874,11 +905,20 @@ theorem memResult_fsum (s : Shard) (pts : List Point) (hinv : Inv s pts) (h2 : I
       simp [this]
     | some bb =>
       cases bb with
-      | true => exact ⟨_, rfl, memCalls_fsum s pts hinv q hspf hc fam md hm group t⟩
+      | true => exact ⟨_, rfl, hM md hm⟩
       | false =>
         refine ⟨[], rfl, ?_⟩
-        rw [← memCalls_fsum s pts hinv q hspf hc fam md hm group t,
+        rw [← hM md hm,
           memCalls_nil_of_filter_false s q sc _ md fam group hf]
+
+theorem memResult_fsum (s : Shard) (pts : List Point) (hinv : Inv s pts) (h2 : Inv2 s) (q : Query) {L : List AggType} (hL : L.Nodup) (hAL : s.fieldAgg q.field ∈ L) (sc : Scope)
+    (hspf : 0 < q.spf) (hc : AggComm (s.fieldAgg q.field)) (fam : Nat) (group : List Nat)
+    (hsc : ScopeOK q sc group) (t : Nat) :
+    ∃ mem, memResult s q sc L fam group = some mem ∧
+      fsum (s.fieldAgg q.field) mem (fun c => arrGet c (s.fieldAgg q.field) t) =
+        famBucket (s.fieldAgg q.field) q fam t group (fun ser slot => pageView s fam ser q.field slot) :=
+  memResult_fsum_gen s pts hinv h2 q sc fam group hsc t
+    (fun md hm => memCalls_fsum s pts hinv q hL hAL hspf hc fam md hm group t)
 
 /-- with not-found ignored the family's calls are the memory calls followed by the calls of the
 matching readers. -/
@@ -899,20 +939,20 @@ theorem combineCalls_fsum (A : AggType) (sc : Scope) (mem : List Arrays) (reader
 
 /-- a reader's cells for the group and the field, whether it matches the scope and lists the
 field or not. -/
-theorem fileCalls_fsum_any (s : Shard) (pts : List Point) (hinv : Inv s pts) (h2 : Inv2 s) (q : Query) (sc : Scope)
-    (A : AggType) (hspf : 0 < q.spf) (fam : Nat) (blk : Block) (hb : blk ∈ (s.family fam).readers)
+theorem fileCalls_fsum_any (s : Shard) (pts : List Point) (hinv : Inv s pts) (h2 : Inv2 s) (q : Query) {L : List AggType} (hL : L.Nodup) (sc : Scope)
+    (A : AggType) (hAL : A ∈ L) (hspf : 0 < q.spf) (fam : Nat) (blk : Block) (hb : blk ∈ (s.family fam).readers)
     (group : List Nat) (t : Nat) :
-    fsum A (fileCalls s q sc [A] blk fam group) (fun c => arrGet c A t) =
+    fsum A (fileCalls s q sc L blk fam group) (fun c => arrGet c A t) =
       famBucket A q fam t group (fun ser slot => blk.cell (ser, q.field) slot) := by
   have hsf : s.cfg.singleFieldByIndex = true := by rw [hinv.cfgFixed]; rfl
   by_cases hcont : blk.fields.contains q.field = true
-  · exact fileCalls_fsum s q sc A hspf blk fam (by simp only [blockSourceField, hsf, if_true, hcont]) group t
+  · exact fileCalls_fsum s q sc A hL hAL hspf blk fam (by simp only [blockSourceField, hsf, if_true, hcont]) group t
   · -- the block does not list the field: it holds no page of it
     have hcf : blk.fields.contains q.field = false := by
       cases h : blk.fields.contains q.field <;> simp_all
     have hsrc : blockSourceField s q sc blk = none := by
       simp only [blockSourceField, hsf, if_true, hcf, Bool.false_eq_true, if_false]
-    have hnil : fileCalls s q sc [A] blk fam group = [] := by
+    have hnil : fileCalls s q sc L blk fam group = [] := by
       unfold fileCalls
       rw [hsrc]
       cases familyTarget q fam with
@@ -931,13 +971,19 @@ theorem fileCalls_fsum_any (s : Shard) (pts : List Point) (hinv : Inv s pts) (h2
       rw [List.contains_eq_mem] at hcf
       simp [this] at hcf
 
-theorem familyCalls_fsum (s : Shard) (pts : List Point) (hinv : Inv s pts) (h2 : Inv2 s) (q : Query) (sc : Scope)
-    (hspf : 0 < q.spf) (hc : AggComm (s.fieldAgg q.field)) (fam : Nat) (group : List Nat)
-    (hsc : ScopeOK q sc group) (t : Nat) :
-    fsum (s.fieldAgg q.field) (familyCalls s q sc [s.fieldAgg q.field] fam group)
+theorem familyCalls_fsum_raw (s : Shard) (pts : List Point) (hinv : Inv s pts) (h2 : Inv2 s) (q : Query) {L : List AggType} (hL : L.Nodup) (hAL : s.fieldAgg q.field ∈ L) (sc : Scope)
+    (hspf : 0 < q.spf) (fam : Nat) (group : List Nat)
+    (hsc : ScopeOK q sc group) (t : Nat)
+    (hM : ∀ md, (s.family fam).mutable_ = some md →
+      fsum (s.fieldAgg q.field) (memCalls s q L md fam group) (fun c => arrGet c (s.fieldAgg q.field) t) =
+        famBucket (s.fieldAgg q.field) q fam t group (fun ser slot => pageView s fam ser q.field slot)) :
+    fsum (s.fieldAgg q.field) (familyCalls s q sc L fam group)
         (fun c => arrGet c (s.fieldAgg q.field) t) =
-      famBucket (s.fieldAgg q.field) q fam t group (fun ser slot => storeView s fam ser q.field slot) := by
-  obtain ⟨mem, hmemEq, hmemSum⟩ := memResult_fsum s pts hinv h2 q sc hspf hc fam group hsc t
+      ocomb (s.fieldAgg q.field)
+        (famBucket (s.fieldAgg q.field) q fam t group (fun ser slot => pageView s fam ser q.field slot))
+        (fsum (s.fieldAgg q.field) (s.family fam).readers
+          (fun blk => famBucket (s.fieldAgg q.field) q fam t group (fun ser slot => blk.cell (ser, q.field) slot))) := by
+  obtain ⟨mem, hmemEq, hmemSum⟩ := memResult_fsum_gen s pts hinv h2 q sc fam group hsc t hM
   have hni : s.cfg.notFoundIgnored = true := by rw [hinv.cfgFixed]; rfl
   unfold familyCalls
   rw [hmemEq, hni]
@@ -945,7 +991,7 @@ theorem familyCalls_fsum (s : Shard) (pts : List Point) (hinv : Inv s pts) (h2 :
   rw [combineCalls_fsum, hmemSum]
   -- the matching overlapping readers → all readers
   have hfiles : fsum (s.fieldAgg q.field) ((familyReaders s q fam).filter (blockMatches sc))
-      (fun blk => fsum (s.fieldAgg q.field) (fileCalls s q sc [s.fieldAgg q.field] blk fam group)
+      (fun blk => fsum (s.fieldAgg q.field) (fileCalls s q sc L blk fam group)
         (fun c => arrGet c (s.fieldAgg q.field) t)) =
       fsum (s.fieldAgg q.field) (s.family fam).readers
         (fun blk => famBucket (s.fieldAgg q.field) q fam t group (fun ser slot => blk.cell (ser, q.field) slot)) := by
@@ -960,13 +1006,13 @@ theorem familyCalls_fsum (s : Shard) (pts : List Point) (hinv : Inv s pts) (h2 :
         simp only at hb
         exact (List.mem_filter.mp hb).1
     have h1 : fsum (s.fieldAgg q.field) ((familyReaders s q fam).filter (blockMatches sc))
-        (fun blk => fsum (s.fieldAgg q.field) (fileCalls s q sc [s.fieldAgg q.field] blk fam group)
+        (fun blk => fsum (s.fieldAgg q.field) (fileCalls s q sc L blk fam group)
           (fun c => arrGet c (s.fieldAgg q.field) t)) =
         fsum (s.fieldAgg q.field) ((familyReaders s q fam).filter (blockMatches sc))
           (fun blk => famBucket (s.fieldAgg q.field) q fam t group (fun ser slot => blk.cell (ser, q.field) slot)) := by
       apply fsum_congr
       intro blk hb
-      exact fileCalls_fsum_any s pts hinv h2 q sc _ hspf fam blk (hsub blk (List.mem_filter.mp hb).1) group t
+      exact fileCalls_fsum_any s pts hinv h2 q hL sc _ hAL hspf fam blk (hsub blk (List.mem_filter.mp hb).1) group t
     rw [h1]
     -- a reader that does not match the scope holds nothing for the group and the field
     rw [fsum_filter _ _ (blockMatches sc) _ (by
@@ -1009,7 +1055,18 @@ theorem familyCalls_fsum (s : Shard) (pts : List Point) (hinv : Inv s pts) (h2 :
       apply fsum_filter
       intro blk _ hov
       exact block_nonoverlap_none _ q fam tLo tHi t blk group q.field ht hov
-  rw [hfiles, famBucket_fsum hc, famBucket_add hc]
+  rw [hfiles]
+
+/-- one family, commutative aggregate: memory and files in any order. -/
+theorem familyCalls_fsum (s : Shard) (pts : List Point) (hinv : Inv s pts) (h2 : Inv2 s) (q : Query) {L : List AggType} (hL : L.Nodup) (hAL : s.fieldAgg q.field ∈ L) (sc : Scope)
+    (hspf : 0 < q.spf) (hc : AggComm (s.fieldAgg q.field)) (fam : Nat) (group : List Nat)
+    (hsc : ScopeOK q sc group) (t : Nat) :
+    fsum (s.fieldAgg q.field) (familyCalls s q sc L fam group)
+        (fun c => arrGet c (s.fieldAgg q.field) t) =
+      famBucket (s.fieldAgg q.field) q fam t group (fun ser slot => storeView s fam ser q.field slot) := by
+  rw [familyCalls_fsum_raw s pts hinv h2 q hL hAL sc hspf fam group hsc t
+    (fun md hm => memCalls_fsum s pts hinv q hL hAL hspf hc fam md hm group t)]
+  rw [famBucket_fsum hc, famBucket_add hc]
   apply famBucket_congr
   intro ser slot _ _
   unfold storeView
@@ -1018,9 +1075,9 @@ theorem familyCalls_fsum (s : Shard) (pts : List Point) (hinv : Inv s pts) (h2 :
 
 /-! ### all families, and the reference in the same form -/
 
-theorem leafGroup_eq_fsum (s : Shard) (pts : List Point) (hinv : Inv s pts) (h2 : Inv2 s) (q : Query) (sc : Scope)
+theorem leafGroup_eq_fsum (s : Shard) (pts : List Point) (hinv : Inv s pts) (h2 : Inv2 s) (q : Query) {L : List AggType} (hL : L.Nodup) (hAL : s.fieldAgg q.field ∈ L) (sc : Scope)
     (hspf : 0 < q.spf) (hc : AggComm (s.fieldAgg q.field)) (fams group : List Nat) (hsc : ScopeOK q sc group) (t : Nat) :
-    arrGet (leafGroup s q sc [s.fieldAgg q.field] fams group) (s.fieldAgg q.field) t =
+    arrGet (leafGroup s q sc L fams group) (s.fieldAgg q.field) t =
       fsum (s.fieldAgg q.field) group (fun ser => fsum (s.fieldAgg q.field) fams (fun fam =>
         fsum (s.fieldAgg q.field) (List.range q.spf) (fun slot =>
           if bucketOf q fam slot = some t then storeView s fam ser q.field slot else none))) := by
@@ -1028,20 +1085,20 @@ theorem leafGroup_eq_fsum (s : Shard) (pts : List Point) (hinv : Inv s pts) (h2 
   have hab : s.cfg.aggregateByType = true := by rw [hinv.cfgFixed]; rfl
   rw [hab]
   simp only [if_true]
-  rw [reduce_spec _ _ (by
+  rw [reduce_spec L hL _ hAL _ (by
     intro c hcm
     rw [List.mem_flatMap] at hcm
     obtain ⟨fam, _, hf⟩ := hcm
-    exact familyCalls_wf s q sc _ fam group c hf) t]
+    exact familyCalls_wf s q sc L hL fam group c hf) t]
   rw [fsum_flatMap]
   have h1 : fsum (s.fieldAgg q.field) fams (fun fam =>
-      fsum (s.fieldAgg q.field) (familyCalls s q sc [s.fieldAgg q.field] fam group)
+      fsum (s.fieldAgg q.field) (familyCalls s q sc L fam group)
         (fun c => arrGet c (s.fieldAgg q.field) t)) =
       fsum (s.fieldAgg q.field) fams (fun fam =>
         famBucket (s.fieldAgg q.field) q fam t group (fun ser slot => storeView s fam ser q.field slot)) := by
     apply fsum_congr
     intro fam _
-    exact familyCalls_fsum s pts hinv h2 q sc hspf hc fam group hsc t
+    exact familyCalls_fsum s pts hinv h2 q hL hAL sc hspf hc fam group hsc t
   rw [h1]
   unfold famBucket
   exact fsum_swap hc fams group _
@@ -1091,11 +1148,11 @@ def overlapOf (q : Query) (fam : Nat) (rs : List Block) : List Block :=
 
 /-- the calls of the matching overlapping ones of some of the family's readers = the bucket folds
 of all of them. -/
-theorem readersCalls_fsum (s : Shard) (pts : List Point) (hinv : Inv s pts) (h2 : Inv2 s) (q : Query) (sc : Scope)
+theorem readersCalls_fsum (s : Shard) (pts : List Point) (hinv : Inv s pts) (h2 : Inv2 s) (q : Query) {L : List AggType} (hL : L.Nodup) (hAL : s.fieldAgg q.field ∈ L) (sc : Scope)
     (hspf : 0 < q.spf) (fam : Nat) (group : List Nat) (hsc : ScopeOK q sc group) (t : Nat)
     (rs : List Block) (hsubr : ∀ blk ∈ rs, blk ∈ (s.family fam).readers) :
     fsum (s.fieldAgg q.field) ((overlapOf q fam rs).filter (blockMatches sc))
-      (fun blk => fsum (s.fieldAgg q.field) (fileCalls s q sc [s.fieldAgg q.field] blk fam group)
+      (fun blk => fsum (s.fieldAgg q.field) (fileCalls s q sc L blk fam group)
         (fun c => arrGet c (s.fieldAgg q.field) t)) =
     fsum (s.fieldAgg q.field) rs
       (fun blk => famBucket (s.fieldAgg q.field) q fam t group (fun ser slot => blk.cell (ser, q.field) slot)) := by
@@ -1110,13 +1167,13 @@ theorem readersCalls_fsum (s : Shard) (pts : List Point) (hinv : Inv s pts) (h2 
       simp only at hb
       exact hsubr blk (List.mem_filter.mp hb).1
   have h1 : fsum (s.fieldAgg q.field) ((overlapOf q fam rs).filter (blockMatches sc))
-      (fun blk => fsum (s.fieldAgg q.field) (fileCalls s q sc [s.fieldAgg q.field] blk fam group)
+      (fun blk => fsum (s.fieldAgg q.field) (fileCalls s q sc L blk fam group)
         (fun c => arrGet c (s.fieldAgg q.field) t)) =
       fsum (s.fieldAgg q.field) ((overlapOf q fam rs).filter (blockMatches sc))
         (fun blk => famBucket (s.fieldAgg q.field) q fam t group (fun ser slot => blk.cell (ser, q.field) slot)) := by
     apply fsum_congr
     intro blk hb
-    exact fileCalls_fsum_any s pts hinv h2 q sc _ hspf fam blk (hsub blk (List.mem_filter.mp hb).1) group t
+    exact fileCalls_fsum_any s pts hinv h2 q hL sc _ hAL hspf fam blk (hsub blk (List.mem_filter.mp hb).1) group t
   rw [h1]
   rw [fsum_filter _ _ (blockMatches sc) _ (by
     intro blk hb hnm
@@ -1159,14 +1216,14 @@ theorem readersCalls_fsum (s : Shard) (pts : List Point) (hinv : Inv s pts) (h2 
     exact block_nonoverlap_none _ q fam tLo tHi t blk group q.field ht hov
 
 /-- the immutable memory database's result sets = bucket fold of its pages' views. -/
-theorem immResult_fsum {w : Nat} (s : Shard) (hcfg : s.cfg = Cfg.fixed) (q : Query) (sc : Scope) (hspf : 0 < q.spf)
+theorem immResult_fsum {w : Nat} (s : Shard) (hcfg : s.cfg = Cfg.fixed) (q : Query) {L : List AggType} (hL : L.Nodup) (hAL : s.fieldAgg q.field ∈ L) (sc : Scope) (hspf : 0 < q.spf)
     (hc : AggComm (s.fieldAgg q.field)) (W : Window) (lo hi : Nat) (hrng : W.rng = some (lo, hi))
     (hb : ∀ ser b, Map.lookup W.imm.pages (ser, q.field) = some b →
       BufInv w b ∧ ∀ t, memView (s.fieldAgg q.field) b t ≠ none → lo ≤ t ∧ t ≤ hi)
     (hk : ∀ k b, Map.lookup W.imm.pages k = some b → k.1 ∈ s.known)
     (group : List Nat) (hsc : ScopeOK q sc group) (t : Nat) :
-    ∃ imm, immResult s q sc [s.fieldAgg q.field] W group = some imm ∧
-      (∀ c ∈ imm, WF1 (s.fieldAgg q.field) c) ∧
+    ∃ imm, immResult s q sc L W group = some imm ∧
+      (∀ c ∈ imm, WFL L c) ∧
       fsum (s.fieldAgg q.field) imm (fun c => arrGet c (s.fieldAgg q.field) t) =
         famBucket (s.fieldAgg q.field) q W.fam t group
           (fun ser slot => pagesView (s.fieldAgg q.field) W.imm.pages q.field ser slot) := by
@@ -1188,18 +1245,18 @@ theorem immResult_fsum {w : Nat} (s : Shard) (hcfg : s.cfg = Cfg.fixed) (q : Que
   | some bb =>
     cases bb with
     | true =>
-      refine ⟨_, rfl, memCallsR_wf q _ W.imm.pages W.rng W.fam group, ?_⟩
+      refine ⟨_, rfl, memCallsR_wf q L hL W.imm.pages W.rng W.fam group, ?_⟩
       rw [hrng]
-      exact memCallsR_fsum (w := w) _ hc q hspf W.imm.pages lo hi hb W.fam group t
+      exact memCallsR_fsum (w := w) _ hL hAL hc q hspf W.imm.pages lo hi hb W.fam group t
     | false =>
       refine ⟨[], rfl, by simp, ?_⟩
-      have hnil := memCallsR_nil_of_filter_false s.known q sc [s.fieldAgg q.field] W.imm.pages W.rng W.fam group hf
-      rw [← memCallsR_fsum (w := w) _ hc q hspf W.imm.pages lo hi hb W.fam group t, ← hrng, hnil]
+      have hnil := memCallsR_nil_of_filter_false s.known q sc L W.imm.pages W.rng W.fam group hf
+      rw [← memCallsR_fsum (w := w) _ hL hAL hc q hspf W.imm.pages lo hi hb W.fam group t, ← hrng, hnil]
 
 /-- the family that is being flushed: its calls in the window = the bucket fold of the shard's
 abstraction once the file is committed. `blk` is the block being written (the last level-0 file
 of the completed state), whose cells are the immutable memory database's views. -/
-theorem familyCallsW_fsum {w : Nat} (s : Shard) (pts : List Point) (hinv : Inv s pts) (h2 : Inv2 s) (q : Query)
+theorem familyCallsW_fsum {w : Nat} (s : Shard) (pts : List Point) (hinv : Inv s pts) (h2 : Inv2 s) (q : Query) {L : List AggType} (hL : L.Nodup) (hAL : s.fieldAgg q.field ∈ L)
     (sc : Scope) (hspf : 0 < q.spf) (hc : AggComm (s.fieldAgg q.field)) (W : Window) (lo hi : Nat)
     (hrng : W.rng = some (lo, hi))
     (hb : ∀ ser b, Map.lookup W.imm.pages (ser, q.field) = some b →
@@ -1208,14 +1265,14 @@ theorem familyCallsW_fsum {w : Nat} (s : Shard) (pts : List Point) (hinv : Inv s
     (fs : List Block) (blk : Block) (hfiles : (s.family W.fam).files = fs ++ [blk])
     (hblk : ∀ ser slot, blk.cell (ser, q.field) slot = pagesView (s.fieldAgg q.field) W.imm.pages q.field ser slot)
     (group : List Nat) (hsc : ScopeOK q sc group) (t : Nat) :
-    (∀ c ∈ familyCallsW s q sc [s.fieldAgg q.field] W group, WF1 (s.fieldAgg q.field) c) ∧
-    fsum (s.fieldAgg q.field) (familyCallsW s q sc [s.fieldAgg q.field] W group)
+    (∀ c ∈ familyCallsW s q sc L W group, WFL L c) ∧
+    fsum (s.fieldAgg q.field) (familyCallsW s q sc L W group)
         (fun c => arrGet c (s.fieldAgg q.field) t) =
       famBucket (s.fieldAgg q.field) q W.fam t group (fun ser slot => storeView s W.fam ser q.field slot) := by
-  obtain ⟨mem, hmemEq, hmemSum⟩ := memResult_fsum s pts hinv h2 q sc hspf hc W.fam group hsc t
-  obtain ⟨imm, himmEq, himmWF, himmSum⟩ := immResult_fsum (w := w) s hinv.cfgFixed q sc hspf hc W lo hi hrng hb hk group hsc t
+  obtain ⟨mem, hmemEq, hmemSum⟩ := memResult_fsum s pts hinv h2 q hL hAL sc hspf hc W.fam group hsc t
+  obtain ⟨imm, himmEq, himmWF, himmSum⟩ := immResult_fsum (w := w) s hinv.cfgFixed q hL hAL sc hspf hc W lo hi hrng hb hk group hsc t
   have hni : s.cfg.notFoundIgnored = true := by rw [hinv.cfgFixed]; rfl
-  have hmemWF := memResult_wf s q sc (s.fieldAgg q.field) W.fam group mem hmemEq
+  have hmemWF := memResult_wf s q sc L hL W.fam group mem hmemEq
   -- the committed readers
   have hrs : windowReaders s q W.fam = overlapOf q W.fam (fs ++ (match (s.family W.fam).base with | some b => [b] | none => [])) := by
     unfold windowReaders overlapOf
@@ -1235,7 +1292,7 @@ theorem familyCallsW_fsum {w : Nat} (s : Shard) (pts : List Point) (hinv : Inv s
   constructor
   · intro c hcm
     unfold combineCalls at hcm
-    have hmi : ∀ c ∈ mem ++ imm, WF1 (s.fieldAgg q.field) c := by
+    have hmi : ∀ c ∈ mem ++ imm, WFL L c := by
       intro c hc'
       rcases List.mem_append.mp hc' with h | h
       · exact hmemWF c h
@@ -1248,9 +1305,9 @@ theorem familyCallsW_fsum {w : Nat} (s : Shard) (pts : List Point) (hinv : Inv s
         · exact hmi c h
         · rw [List.mem_flatMap] at h
           obtain ⟨b', _, hb'⟩ := h
-          exact fileCalls_wf s q sc _ b' W.fam group c hb'
+          exact fileCalls_wf s q sc L hL b' W.fam group c hb'
   · rw [combineCalls_fsum, fsum_append, hmemSum, himmSum, hrs,
-      readersCalls_fsum s pts hinv h2 q sc hspf W.fam group hsc t _ hsubr]
+      readersCalls_fsum s pts hinv h2 q hL hAL sc hspf W.fam group hsc t _ hsubr]
     rw [famBucket_fsum hc, famBucket_add hc, famBucket_add hc]
     apply famBucket_congr
     intro ser slot _ _
@@ -1333,7 +1390,7 @@ theorem flushBlock_cell (s : Shard) (hcfg : s.cfg = Cfg.fixed) (md : MemDB) (lo 
     obtain ⟨hbi, hbc⟩ := hb (ser, fld) b hp
     exact flushCell_eq_memView (s.fieldAgg fld) hbi lo hi slot hbc
 
-theorem leafGroupW_eq_fsum {w : Nat} (s : Shard) (pts : List Point) (hinv : Inv s pts) (h2 : Inv2 s) (q : Query)
+theorem leafGroupW_eq_fsum {w : Nat} (s : Shard) (pts : List Point) (hinv : Inv s pts) (h2 : Inv2 s) (q : Query) {L : List AggType} (hL : L.Nodup) (hAL : s.fieldAgg q.field ∈ L)
     (sc : Scope) (hspf : 0 < q.spf) (hc : AggComm (s.fieldAgg q.field)) (W : Window) (lo hi : Nat)
     (hrng : W.rng = some (lo, hi))
     (hb : ∀ ser b, Map.lookup W.imm.pages (ser, q.field) = some b →
@@ -1342,27 +1399,27 @@ theorem leafGroupW_eq_fsum {w : Nat} (s : Shard) (pts : List Point) (hinv : Inv 
     (fs : List Block) (blk : Block) (hfiles : (s.family W.fam).files = fs ++ [blk])
     (hblk : ∀ ser slot, blk.cell (ser, q.field) slot = pagesView (s.fieldAgg q.field) W.imm.pages q.field ser slot)
     (fams group : List Nat) (hsc : ScopeOK q sc group) (t : Nat) :
-    arrGet (leafGroupW s q sc [s.fieldAgg q.field] W fams group) (s.fieldAgg q.field) t =
+    arrGet (leafGroupW s q sc L W fams group) (s.fieldAgg q.field) t =
       fsum (s.fieldAgg q.field) group (fun ser => fsum (s.fieldAgg q.field) fams (fun fam =>
         fsum (s.fieldAgg q.field) (List.range q.spf) (fun slot =>
           if bucketOf q fam slot = some t then storeView s fam ser q.field slot else none))) := by
-  have hW := familyCallsW_fsum (w := w) s pts hinv h2 q sc hspf hc W lo hi hrng hb hk fs blk hfiles hblk group hsc
+  have hW := familyCallsW_fsum (w := w) s pts hinv h2 q hL hAL sc hspf hc W lo hi hrng hb hk fs blk hfiles hblk group hsc
   unfold leafGroupW
   have hab : s.cfg.aggregateByType = true := by rw [hinv.cfgFixed]; rfl
   rw [hab]
   simp only [if_true]
-  rw [reduce_spec _ _ (by
+  rw [reduce_spec L hL _ hAL _ (by
     intro c hcm
     rw [List.mem_flatMap] at hcm
     obtain ⟨fam, _, hf⟩ := hcm
     split at hf
     · exact (hW t).1 c hf
-    · exact familyCalls_wf s q sc _ fam group c hf) t]
+    · exact familyCalls_wf s q sc L hL fam group c hf) t]
   rw [fsum_flatMap]
   have h1 : fsum (s.fieldAgg q.field) fams (fun fam =>
       fsum (s.fieldAgg q.field)
-        (if fam = W.fam then familyCallsW s q sc [s.fieldAgg q.field] W group
-          else familyCalls s q sc [s.fieldAgg q.field] fam group)
+        (if fam = W.fam then familyCallsW s q sc L W group
+          else familyCalls s q sc L fam group)
         (fun c => arrGet c (s.fieldAgg q.field) t)) =
       fsum (s.fieldAgg q.field) fams (fun fam =>
         famBucket (s.fieldAgg q.field) q fam t group (fun ser slot => storeView s fam ser q.field slot)) := by
@@ -1372,7 +1429,7 @@ theorem leafGroupW_eq_fsum {w : Nat} (s : Shard) (pts : List Point) (hinv : Inv 
     · simp only [hf, if_true]
       exact (hW t).2
     · simp only [hf, if_false]
-      exact familyCalls_fsum s pts hinv h2 q sc hspf hc fam group hsc t
+      exact familyCalls_fsum s pts hinv h2 q hL hAL sc hspf hc fam group hsc t
   rw [h1]
   unfold famBucket
   exact fsum_swap hc fams group _
